@@ -210,7 +210,10 @@ def eval_cases(prop, cfg, lines, shards=16, chunk=150):
     shutil.rmtree(d, ignore_errors=True)
     os.makedirs(d)
     n = len(lines)
-    per = max(1, (n + shards - 1) // shards)
+    # many small files rather than a few huge ones: a coqc process holding
+    # thousands of large literals needs gigabytes; 16 workers take the files
+    # in turn
+    per = min(max(1, (n + shards - 1) // shards), int(cfg.get("cases_per_file", 400)))
     jobs = []
     for k in range(0, n, per):
         part = lines[k:k + per]
